@@ -352,6 +352,10 @@ impl<'a> Trainer<'a> {
         let mut examples = vec![];
         self.gen_features(sentence, &mut examples);
         for (features, b) in examples {
+            if b == CharacterBoundary::Unknown {
+                // unannotated boundaries are not training examples
+                continue;
+            }
             let mut feature_vector = HashMap::new();
             for feature in features {
                 let new_id = self.feature_ids.len() + 1;
